@@ -29,6 +29,12 @@ Import ListNotations.
 (* ---- the op languages ---------------------------------------------------------------- *)
 Inductive paction := PASetChildProcessError.  (* result = SubprocessError(ex=ChildProcessError(<str>)) *)
 
+(* which signal the parent sends to its child: process.kill() -> SIGKILL (cannot be caught, blocked or
+   ignored), process.terminate() -> SIGTERM (terminates the child only under the default disposition:
+   a child forked from an application that has installed its own SIGTERM handler / SIG_IGN inherits
+   it, a callee may install one itself - `b_term_fatal` of the behaviour) *)
+Inductive ksig := KSigKill | KSigTerm.
+
 Inductive pop :=
 | PRequirePipe          (* if Pipe is None: raise ImportError(...) *)
 | PPipe                 (* rx, tx = Pipe(duplex=False) *)
@@ -42,7 +48,7 @@ Inductive pop :=
 | PIfNotPollWaitH (n : nat)
                         (* try: <the same> except BaseException / CancelledError: <n simple statements>; raise
                            - the n ops of the handler body follow, then PReraise; the normal path skips them *)
-| PKill                 (* process.kill() *)
+| PKill (sg : ksig)     (* process.kill() / process.terminate() *)
 | PRemoveReader         (* loop.remove_reader(fd=rx.fileno()) *)
 | PClearEvent           (* event.clear() *)
 | PRecv (handlers : list (list exn * paction))   (* [try:] result = rx.recv() [except <classes>: <action>]* *)
@@ -77,7 +83,11 @@ Record beh := {
   b_async : bool;           (* the callee is a coroutine function *)
   b_ret_err : bool;         (* the value the callee RETURNS is itself an instance of SubprocessError *)
   b_unp : bool;             (* the payload pickles in the child, but UNPICKLING it in the parent raises *)
+  b_term_fatal : bool;      (* SIGTERM terminates the child process (false: a handler / SIG_IGN is in place,
+                               inherited from the application or installed by the callee) *)
 }.
+Definition sig_fatal (b : beh) (sg : ksig) : bool :=
+  match sg with KSigKill => true | KSigTerm => b_term_fatal b end.
 
 (* exception objects in the state: the callee's own exception object, or a fresh one of a class *)
 Inductive xval := XCallee | XCls (c : exn)
@@ -226,10 +236,11 @@ Section Local.
           if k_readable (data s) (l_writers env s) then Some (p_set s (p_jump p (n + 2)))   (* over handler + PReraise *)
           else Some (p_set s (p_adv (p_with_stat p PSWait)))         (* suspends with pc at the handler body *)
         else Some (p_finish s (FRaise (XCls OSErrorC)))
-    | PKill =>
+    | PKill sg =>
         match c_stat (cs s) with
         | CNotStarted => Some (p_finish s (FRaise (XCls AttributeErrorC)))   (* no popen object yet *)
-        | CRunning =>                                                  (* SIGKILL: the child is gone (not yet reaped) *)
+        | CRunning =>                                                  (* a fatal signal: the child is gone (not yet reaped) *)
+            if negb (sig_fatal b sg) then Some (p_next s) else         (* SIGTERM handled / ignored: the child goes on *)
             Some {| ps := p_adv p;
                     cs := {| c_stat := CExited; c_pc := c_pc (cs s); c_ends := no_ends; c_pend := c_pend (cs s);
                              c_sending := c_sending (cs s); c_killed := true |};
@@ -422,7 +433,7 @@ Definition kw_binds (fl : kwflags) (k : kwcoll) : bool :=
   match k with KWNone => true | KWParent => kw_parent_safe fl | KWChild => kw_child_safe fl end.
 Definition beh_dies (b : beh) : beh :=
   {| b_out := CDie; b_isa := b_isa b; b_big := b_big b; b_pick := b_pick b; b_async := b_async b;
-     b_ret_err := b_ret_err b; b_unp := b_unp b |}.
+     b_ret_err := b_ret_err b; b_unp := b_unp b; b_term_fatal := b_term_fatal b |}.
 Definition beh_kw (fl : kwflags) (k : kwcoll) (b : beh) : beh :=
   match k with KWChild => if kw_child_safe fl then b else beh_dies b | _ => b end.
 Definition lrun_kw P C (fl : kwflags) (k : kwcoll) b (sched : list lchoice) : lst :=
